@@ -312,6 +312,81 @@ fn big_cases(ctx: &Ctx) -> Vec<BigFault> {
     limits.into_iter().map(|limit| BigFault { seed, contigs: 5, contig_len: 1_900_000, threads: 2, limit }).collect()
 }
 
+// ------------------------------------------------------------------ pipe output --
+// The output may be something that is not a regular file: `ragc create -o <fifo>` works (the
+// archive is written front to back). When the reading side goes away before everything is
+// written, every later write fails with EPIPE: create must not report success.
+
+#[derive(Clone, Debug, Hash, Serialize, Deserialize)]
+pub struct PipeCase {
+    pub collection: Collection,
+    /// control: the reader consumes everything (create must succeed and the bytes must be a complete archive)
+    pub read_all: bool,
+}
+
+pub fn check_pipe(ctx: &Ctx, case: &PipeCase) -> Report {
+    use std::io::Read;
+    use std::os::unix::ffi::OsStrExt;
+    let c = &case.collection;
+    let dir = ctx.scratch("c15pipe");
+    let inputs = match fasta::write_inputs(c, &dir.path.join("in")) {
+        Ok(i) => i,
+        Err(e) => return Report::inconclusive(format!("harness: cannot write inputs: {}", e)),
+    };
+    let fifo = dir.file("out.fifo");
+    let cpath = std::ffi::CString::new(fifo.as_os_str().as_bytes()).unwrap();
+    if unsafe { libc::mkfifo(cpath.as_ptr(), 0o600) } != 0 {
+        return Report::inconclusive(format!("harness: mkfifo failed: {}", std::io::Error::last_os_error()));
+    }
+    // the reader: open() returns exactly when ragc has opened the FIFO for writing
+    let read_all = case.read_all;
+    let fpath = fifo.clone();
+    let reader = std::thread::spawn(move || -> Vec<u8> {
+        let mut got = Vec::new();
+        if let Ok(mut f) = std::fs::File::open(&fpath) {
+            if read_all {
+                let _ = f.read_to_end(&mut got);
+            }
+            // else: dropped at once - the reading side is gone before ragc writes anything
+        }
+        got
+    });
+    let mut cmd = Command::new(&ctx.ragc);
+    cmd.args(pipeline::create_args(&c.params, &fifo, &inputs));
+    let o = pipeline::run_cmd(cmd, Duration::from_secs(180));
+    // release the reader if ragc never opened the FIFO
+    unsafe {
+        let fd = libc::open(cpath.as_ptr(), libc::O_WRONLY | libc::O_NONBLOCK);
+        if fd >= 0 {
+            libc::close(fd);
+        }
+    }
+    let got = reader.join().unwrap_or_default();
+    let o = match o {
+        Ok(o) => o,
+        Err(e) => return Report::inconclusive(format!("cannot run ragc: {}", e)),
+    };
+    if o.timed_out {
+        return Report::inconclusive("ragc create -o <fifo> timed out".to_string());
+    }
+    let rep = Report::pass(true).label("output-is-a-fifo").label(if read_all { "fifo:reader-consumes-everything(control)" } else { "fifo:reader-gone-before-the-first-write" });
+    if read_all {
+        if !o.ok() {
+            // a create that fails on its own (e.g. rejected parameters) says nothing here
+            return Report { nontrivial: false, ..rep.label("create-failed") };
+        }
+        return match agcref::read_archive(&got) {
+            Ok(f) if f.samples.len() == c.samples.len() => rep,
+            Ok(f) => Report { verdict: Verdict::Fail(format!("create -o <fifo> exited 0 but the {} bytes the reader received list {} of {} samples", got.len(), f.samples.len(), c.samples.len())), ..rep },
+            Err(e) => Report { verdict: Verdict::Fail(format!("create -o <fifo> exited 0 but the {} bytes the reader received are not a complete archive: {}", got.len(), e)), ..rep },
+        };
+    }
+    if o.code == Some(0) {
+        return Report { verdict: Verdict::Fail("ragc create (exit 0) reported success although the reading side of its output pipe was closed before anything was written (every write fails with EPIPE)".to_string()), ..rep };
+    }
+    rep
+}
+
 pub fn run(ctx: &Ctx, stats: &mut Stats) {
     use proptest::prelude::*;
     let c2 = ctx.clone();
@@ -328,6 +403,13 @@ pub fn run(ctx: &Ctx, stats: &mut Stats) {
         }
     }
     {
+        use proptest::prelude::*;
+        let c4 = ctx.clone();
+        let cfgp = GenCfg { max_contig: 1800, max_samples: 3, many_samples_pct: 0, single_file: None, vary_presentation: false, swarm_pct: 0 };
+        let np = ctx.tier.pick(32, 400);
+        run_prop(ctx, stats, "pipe-output", np, (gen::collection_strategy(cfgp), prop::bool::weighted(0.25)).prop_map(|(collection, read_all)| PipeCase { collection, read_all }), &move |p: &PipeCase| check_pipe(&c4, p));
+    }
+    {
         let c3 = ctx.clone();
         run_exhaustive(ctx, stats, "big-archive", big_cases(ctx).into_iter(), &move |b: &BigFault| check_big(&c3, b));
         stats.stages.entry("big-archive".into()).or_default().exhaustive = false; // a sample of offsets, not all
@@ -341,6 +423,12 @@ pub fn run(ctx: &Ctx, stats: &mut Stats) {
 }
 
 pub fn replay(ctx: &Ctx, stage: &str, case: &Value) -> Report {
+    if stage == "pipe-output" {
+        return match from_case::<PipeCase>(case) {
+            Ok(b) => check_pipe(ctx, &b),
+            Err(e) => Report::fail(e),
+        };
+    }
     if stage == "big-archive" {
         return match from_case::<BigFault>(case) {
             Ok(b) => check_big(ctx, &b),
@@ -357,7 +445,7 @@ pub fn replay(ctx: &Ctx, stage: &str, case: &Value) -> Report {
 pub const INFO: PropInfo = PropInfo {
     id: "C15",
     level: "fault_enumeration",
-    rule: "cases = generated collections (16 quick / 96 thorough) x injection offsets N: the create runs in a child with RLIMIT_FSIZE = N and SIGXFSZ ignored, so the first write that would pass N fails with EFBIG after a partial write (the shape of a full disk). Offsets (quick, ~30 per archive): 0, 1, every N in the last 12 bytes (the 8-byte length and the directory's tail), the footer start -1/0/+1 and the directory's middle, start and interior of 5 parts (from the independent parser's directory), 4 random N; thorough (16 x 96 archives): 0..2, the last 64 bytes, boundary -1/0/+1 and interior of up to 40 parts, footer start -1..+2, 40 random N, and additionally ALL N in 0..size-1 for 16 small archives. Two thirds of the runs use the real `ragc create` (exit status), one third the library path re-executed in a child (Result of finalize). Oracle: for N < final size the run reports failure (exit != 0 / Err) and is not killed by a signal; control runs with N = size and size+4096 exit 0 with a complete archive (shows the injection is not vacuous). Non-trivial case = offsets fell strictly inside a part, inside the directory and inside the 8-byte length; distinct = distinct collection. faulted_creates etc. give the number of fault injections. Stage big-archive: one generated input (5 contigs x 1.9 Mbases of random IUPAC text, seed from VERIF_SEED) whose archive (~4.6 MiB) exceeds the 4 MiB write buffer, so part data is written before the final flush and a failing write surfaces in add_part / the worker threads rather than in close(); 16 (quick) / 96 (thorough) limits: 1, 4096, 4 MiB -1/0/+1/+4096, random below 4 MiB, between 4 MiB and the end, around the end, and a control (2^40); oracle: exit != 0 and no signal, or exit 0 with a file that the independent reader parses completely (only possible when the limit was never hit).",
+    rule: "cases = generated collections (16 quick / 96 thorough) x injection offsets N: the create runs in a child with RLIMIT_FSIZE = N and SIGXFSZ ignored, so the first write that would pass N fails with EFBIG after a partial write (the shape of a full disk). Offsets (quick, ~30 per archive): 0, 1, every N in the last 12 bytes (the 8-byte length and the directory's tail), the footer start -1/0/+1 and the directory's middle, start and interior of 5 parts (from the independent parser's directory), 4 random N; thorough (16 x 96 archives): 0..2, the last 64 bytes, boundary -1/0/+1 and interior of up to 40 parts, footer start -1..+2, 40 random N, and additionally ALL N in 0..size-1 for 16 small archives. Two thirds of the runs use the real `ragc create` (exit status), one third the library path re-executed in a child (Result of finalize). Oracle: for N < final size the run reports failure (exit != 0 / Err) and is not killed by a signal; control runs with N = size and size+4096 exit 0 with a complete archive (shows the injection is not vacuous). Non-trivial case = offsets fell strictly inside a part, inside the directory and inside the 8-byte length; distinct = distinct collection. faulted_creates etc. give the number of fault injections. Stage pipe-output (32 quick / 400 thorough): `ragc create -o <fifo>`; the reader either leaves as soon as ragc has opened the FIFO (every write then fails with EPIPE: exit must be non-zero) or, as control, consumes everything (exit 0 and the received bytes are a complete archive listing every sample). Stage big-archive: one generated input (5 contigs x 1.9 Mbases of random IUPAC text, seed from VERIF_SEED) whose archive (~4.6 MiB) exceeds the 4 MiB write buffer, so part data is written before the final flush and a failing write surfaces in add_part / the worker threads rather than in close(); 16 (quick) / 96 (thorough) limits: 1, 4096, 4 MiB -1/0/+1/+4096, random below 4 MiB, between 4 MiB and the end, around the end, and a control (2^40); oracle: exit != 0 and no signal, or exit 0 with a file that the independent reader parses completely (only possible when the limit was never hit).",
     assumptions: &["the fault model is 'first failing write at byte N, all later writes fail too' (file-size limit); transient faults are not modelled", "except in stage big-archive the archives are smaller than the 4 MiB write buffer, so the data reaches the file in the final flush"],
     needs_cli: true,
     needs_checked: false,
